@@ -79,8 +79,10 @@ TEnd == /\ l > 1 /\ Is("end") /\ Adv
         /\ Check(tid, l, "P.endframe", IF E.outcome = "normal" THEN "frame" ELSE E.exc,
                  ~Raises => (E.outcome = "normal" /\ (Quiet \/ EndFrameT(oterm, cfg.end, cfg.mode, r0, cfg.values))))
         \* auto() is a context manager: what leaves the with-block is the body's own exception, never one of auto()'s making
-        /\ Check(tid, l, "P.foreign", E.exc, E.outcome = "raised" =>
-                   (Raises /\ E.exc = (IF FirstRaise = "raise" THEN "BodyError" ELSE "KeyboardInterrupt")))
+        \* - and the body's exception does leave it (auto() does not swallow what the body raises)
+        /\ Check(tid, l, "P.foreign", IF E.outcome = "normal" THEN "swallowed" ELSE E.exc,
+                 /\ E.outcome = "raised" => (Raises /\ E.exc = (IF FirstRaise = "raise" THEN "BodyError" ELSE "KeyboardInterrupt"))
+                 /\ (Raises /\ E.outcome # "stuck") => E.outcome = "raised")
         /\ Note(tid, l, "A.outcome", sync => (pcM = "done" /\ outcome = E.outcome))
         /\ Note(tid, l, "A.exc", E.sexc = "" /\ (E.outcome = "raised" => (Raises /\ E.exc = (IF FirstRaise = "raise" THEN "BodyError" ELSE "KeyboardInterrupt"))))
 
